@@ -19,7 +19,8 @@ MODS = (DO, PF, CA, SH, SM, IRF, "glotaran.builtin.megacomplexes.decay.util", "g
 DROPS = ("numba @jit kernels are executed through their .py_func (compilation and parallel schedule dropped)",)
 TRUSTED = (
     "exp, cos, sin, log uninterpreted; the complex error function is a pair of uninterpreted functions of (re, im): formulas are compared structurally with the documented closed forms",
-    "mathematical facts (stated, not machine-checked): the closed form is proportional to the convolution of the causal / anti-causal oscillation with the Gaussian IRF; columns 2 and 3 of the coherent artifact are the first and second time derivative of column 1",
+    "mathematical fact (stated, not machine-checked): the complex closed form is proportional to the convolution of the causal / anti-causal oscillation with the Gaussian IRF (the real-rate case is the Lean theorem convolution_closed_form of C05; the complex error function is not in Mathlib)",
+    "that columns 2 and 3 of the coherent artifact are the first and second time derivative of column 1 are the Lean theorems g_hasDerivAt / g'_hasDerivAt (lemmas/GaussianDerivatives.lean, w ≠ 0, all c, t; re-checked every run)",
 )
 
 
@@ -477,3 +478,30 @@ class SpectralShapes(Contract):
         yield "skewed_gaussian_formula_and_zero_where_log_argument_not_positive", L.and_(*cells)
         if case["points"] == "special":
             yield "amplitude_at_the_location", L.eq(out[0], amp)
+
+
+class ArtifactDerivativeLemma(Contract):
+    """`g_hasDerivAt`, `g'_hasDerivAt` (Lean 4 + Mathlib, re-checked by `lean` on every run): for w ≠ 0 the functions
+    g(t)(c - t)/w² and g(t)((c - t)² - w²)/w⁴ discharged on the coherent-artifact kernels are the first and second time
+    derivative of the IRF Gaussian g(t) = exp(-(t - c)²/(2w²))."""
+
+    prop = "C07"
+    name = "ArtifactDerivativeLemma"
+    lemma_files = (__import__("pathlib").Path(__file__).resolve().parent.parent / "lemmas" / "GaussianDerivatives.lean",)
+    target = None
+    strength = "U"
+    trusted = ("Lean 4.33 kernel and Mathlib (HasDerivAt, Real.exp); axioms propext, Classical.choice, Quot.sound",)
+
+    def cases(self, tier):
+        return iter(())
+
+    def static_obligations(self, tier):
+        from pyvc.lean import check_lemmas
+
+        return check_lemmas(
+            self.lemma_files[0],
+            {
+                "PyVC.g_hasDerivAt": "lemma_second_column_is_the_first_time_derivative_of_the_gaussian",
+                "PyVC.g'_hasDerivAt": "lemma_third_column_is_the_second_time_derivative_of_the_gaussian",
+            },
+        )
